@@ -66,6 +66,20 @@ PROPS = {
             "X: duplicate certificate id and unknown account (MainEventLoop::new); global env dispatch to certificates (HashMap iteration)",
         ],
     },
+    "C15": {
+        "units": ["keys"],
+        "design_ref": "DESIGN.md section 5 C15",
+        "technique": "Verus function contracts: JWK member maps and signature byte layout against RFC 7518 tables pinned in spec functions",
+        "text": "Deductive proof that the RSA and EC JWKs have exactly the RFC 7517/7518 members (thumbprint form: the RFC 7638 member set), "
+                "with minimal-length e/n and coordinates left-padded to the curve size, that an ECDSA signature is R||S with each half "
+                "left-padded to the curve size (for every length of R and S), that the key type recorded for a loaded or generated key is the "
+                "type of the OpenSSL key, and that signing insists on the one algorithm that goes with the key type.",
+        "assumptions": [
+            "T: OpenSSL as modelled in prelude/ac_shims.rs (BN_bn2bin minimal, BN_bn2binpad fixed width, r,s below the group order, coordinates are field elements)",
+            "T: json!({..}) builds an object with exactly the listed members; serde_json's map sorts keys (member order of the thumbprint input)",
+            "X: the Ed25519/Ed448 `x` (cut out of a PEM string by offset); verification under an independent implementation; PEM/DER round trips",
+        ],
+    },
     "C17": {
         "units": ["tacd"],
         "design_ref": "DESIGN.md section 5 C17",
@@ -92,7 +106,7 @@ PROPS = {
         ],
     },
     "C04": {
-        "units": ["jws", "http"],
+        "units": ["jws", "http", "keys"],
         "design_ref": "DESIGN.md section 5 C04",
         "technique": "Verus function contracts: JWS structure as a spec predicate over uninterpreted base64url/serialisation/signature relations; nonce and URL binding as preconditions of the transmission",
         "text": "Deductive proof that encode_jwk/encode_kid/encode_kid_mac produce the flattened JWS of RFC 7515 with exactly the header "
